@@ -211,7 +211,7 @@ func rtmpReadFaults(s Session, segs [][]int) (cnt counts, err error) {
 		}
 		// (2) an injected error at every read call index
 		for j := 0; ; j++ {
-			sent := &xport.Sentinel{Msg: fmt.Sprintf("injected read fault %d", j)}
+			sent := xport.NewSentinel(j, fmt.Sprintf("injected read fault %d", j))
 			er := &xport.ErrReader{R: bytes.NewReader(wire), FailAt: j, AfterBytes: -1, Err: sent}
 			var r io.Reader = er
 			if seg != nil {
@@ -231,7 +231,7 @@ func rtmpReadFaults(s Session, segs [][]int) (cnt counts, err error) {
 			if e == nil {
 				return cnt, fmt.Errorf("%s: no error", what)
 			}
-			if oe.Cause(e) != error(sent) {
+			if oe.Cause(e) != sent {
 				return cnt, fmt.Errorf("%s: error %q has root cause %v (%T), want the injected error", what, e, oe.Cause(e), oe.Cause(e))
 			}
 			if e := checkPrefix(got, msgs, ends, delivered, what); e != nil {
@@ -307,13 +307,13 @@ func rtmpWriteFaults(s Session) (cnt counts, err error) {
 		return nil
 	}
 	for n := 0; n < len(wire); n++ {
-		sent := &xport.Sentinel{Msg: fmt.Sprintf("injected write fault after %d bytes", n)}
+		sent := xport.NewSentinel(n, fmt.Sprintf("injected write fault after %d bytes", n))
 		if e := run(&xport.ErrWriter{AfterBytes: n, FailAt: -1, Err: sent}, sent, fmt.Sprintf("transport accepts %d of %d bytes", n, len(wire))); e != nil && e != errNotReached {
 			return cnt, e
 		}
 	}
 	for j := 0; ; j++ {
-		sent := &xport.Sentinel{Msg: fmt.Sprintf("injected write fault at call %d", j)}
+		sent := xport.NewSentinel(j+1, fmt.Sprintf("injected write fault at call %d", j))
 		e := run(&xport.ErrWriter{AfterBytes: -1, FailAt: j, Err: sent}, sent, fmt.Sprintf("transport fails write call %d", j))
 		if e == errNotReached {
 			break
@@ -347,14 +347,14 @@ func handshakeFaults(seed int64) (cnt counts, err error) {
 			if n >= op.n {
 				continue
 			}
-			sent := &xport.Sentinel{Msg: "injected handshake write fault"}
+			sent := xport.NewSentinel(n, "injected handshake write fault")
 			ew := &xport.ErrWriter{AfterBytes: n, FailAt: -1, Err: sent}
 			e := op.f(ew)
 			cnt.faults++
 			if n > 0 {
 				cnt.inside++
 			}
-			if e == nil || oe.Cause(e) != error(sent) {
+			if e == nil || oe.Cause(e) != sent {
 				return cnt, fmt.Errorf("%s with a transport failing after %d bytes: error %v, root cause %v; want the injected error", op.name, n, e, oe.Cause(e))
 			}
 		}
@@ -390,10 +390,10 @@ func handshakeFaults(seed int64) (cnt counts, err error) {
 				return cnt, fmt.Errorf("%s on a stream cut at %d returned %d bytes with the error", op.name, k, len(b))
 			}
 			// injected
-			sent := &xport.Sentinel{Msg: "injected handshake read fault"}
+			sent := xport.NewSentinel(k, "injected handshake read fault")
 			b, e = op.f(&xport.ErrReader{R: bytes.NewReader(data), AfterBytes: k, FailAt: -1, Err: sent})
 			cnt.faults++
-			if e == nil || oe.Cause(e) != error(sent) {
+			if e == nil || oe.Cause(e) != sent {
 				return cnt, fmt.Errorf("%s with a transport failing after %d bytes: error %v, root cause %v; want the injected error", op.name, k, e, oe.Cause(e))
 			}
 			if b != nil {
@@ -504,7 +504,7 @@ func flvFaults(f FFile, segs [][]int) (cnt counts, err error) {
 			}
 		}
 		for k := 0; k < len(file); k++ {
-			sent := &xport.Sentinel{Msg: fmt.Sprintf("injected flv read fault after %d bytes", k)}
+			sent := xport.NewSentinel(k, fmt.Sprintf("injected flv read fault after %d bytes", k))
 			var r io.Reader = &xport.ErrReader{R: bytes.NewReader(file), AfterBytes: k, FailAt: -1, Err: sent}
 			if seg != nil {
 				r = &xport.SegReader{R: r, Sched: seg}
@@ -515,7 +515,7 @@ func flvFaults(f FFile, segs [][]int) (cnt counts, err error) {
 				cnt.inside++
 			}
 			what := fmt.Sprintf("file of %d bytes, reader fails after %d (seg %v)", len(file), k, seg)
-			if e == nil || oe.Cause(e) != error(sent) {
+			if e == nil || oe.Cause(e) != sent {
 				return cnt, fmt.Errorf("%s: error %v with root cause %v, want the injected error", what, e, oe.Cause(e))
 			}
 			if e := check(got, k, what); e != nil {
@@ -562,13 +562,13 @@ func flvFaults(f FFile, segs [][]int) (cnt counts, err error) {
 		return nil
 	}
 	for n := 0; n < len(file); n++ {
-		sent := &xport.Sentinel{Msg: fmt.Sprintf("injected flv write fault after %d bytes", n)}
+		sent := xport.NewSentinel(n, fmt.Sprintf("injected flv write fault after %d bytes", n))
 		if e := runMux(&xport.ErrWriter{AfterBytes: n, FailAt: -1, Err: sent}, sent, fmt.Sprintf("transport accepts %d of %d bytes", n, len(file))); e != nil && e != errNotReached {
 			return cnt, e
 		}
 	}
 	for j := 0; ; j++ {
-		sent := &xport.Sentinel{Msg: fmt.Sprintf("injected flv write fault at call %d", j)}
+		sent := xport.NewSentinel(j+1, fmt.Sprintf("injected flv write fault at call %d", j))
 		e := runMux(&xport.ErrWriter{AfterBytes: -1, FailAt: j, Err: sent}, sent, fmt.Sprintf("transport fails write call %d", j))
 		if e == errNotReached {
 			break
@@ -610,6 +610,12 @@ func runErrors(c ECase) error {
 		root = oe.Errorf("%s", c.Text)
 	case "std":
 		root = &plainErr{c.Text}
+	case "wrapper":
+		root = xport.NewSentinel(1, c.Text)
+	case "wrapper-nil":
+		root = xport.NewSentinel(2, c.Text)
+	case "operror":
+		root = xport.NewSentinel(3, c.Text)
 	case "nil":
 		root = nil
 	}
@@ -857,7 +863,7 @@ var recErr = ev.New(prop, "errors-nesting",
 
 func TestErrorsNesting(t *testing.T) {
 	ev.Rapid(t, "errors-nesting", 5000, 300000, func(t *rapid.T) {
-		c := ECase{Root: rapid.SampledFrom([]string{"eof", "unexpected", "new", "errorf", "std", "nil"}).Draw(t, "root"), Text: rapid.StringMatching(`[ -~]{0,12}`).Draw(t, "text")}
+		c := ECase{Root: rapid.SampledFrom([]string{"eof", "unexpected", "new", "errorf", "std", "nil", "wrapper", "wrapper-nil", "operror"}).Draw(t, "root"), Text: rapid.StringMatching(`[ -~]{0,12}`).Draw(t, "text")}
 		n := rapid.IntRange(1, 12).Draw(t, "depth")
 		for i := 0; i < n; i++ {
 			c.Ops = append(c.Ops, EOp{Op: rapid.SampledFrom([]string{"wrap", "wrapf", "msg", "stack"}).Draw(t, "op"), Msg: rapid.StringMatching(`[ -~]{0,10}`).Draw(t, "msg")})
